@@ -2,7 +2,7 @@
 """Regenerates /verif/MANIFEST.json from the table below (keep in sync with harness/src/props)."""
 import json,subprocess
 
-HOOK_COMMITS=["783ffd6"]
+HOOK_COMMITS=["783ffd6","854323a"]
 
 CHECKS={
  "C01": dict(tech="exhaustive token-class enumeration + proptest choice-stream generation with shrinking; round-trip oracle (leaf walk == input)", engine="inproc",
@@ -56,7 +56,7 @@ CHECKS={
  "C15": dict(tech="proptest-generated LSP message sequences (valid and invalid parameters by rule) against the real binary; invariant over the history (alive, one response per id) + reference model of the document store with allowed-outcome sets", engine="lsp",
    text="Exploration: 3k/60k sequences of 5-40 messages (opens, changes with out-of-range / reversed / mid-surrogate / huge positions and further changes after an invalid one, closes, saves, watched-file events, non-file URIs, all 11 request kinds, bursts of 2*cores+1 identical requests written at once) against the real `glas --stdio`; the process must stay alive, answer every id exactly once, end with status 0, and every document's text (via glas/syntaxTree) must be one the model allows - never an edit applied elsewhere.",
    note="A request outside the document may be answered with an error; once a document's state is ambiguous and changes go on, it is untracked until reopened (sound, weaker).", ref="DESIGN.md §5 C15"),
- "C16": dict(tech="proptest-generated races (request batches vs edit bursts, stream-chosen chunking and pauses) against the real binary; per-version differential oracle (in-process answers) + convergence and liveness invariants", engine="lsp",
+ "C16": dict(tech="proptest-generated races (request batches vs edit bursts, stream-chosen chunking and pauses) against the real binary, half of them against the same server built with seeded yield points (hook `verif`) at the store/database/snapshot/diagnostics boundaries; per-version differential oracle (in-process answers) + convergence and liveness invariants", engine="lsp",
    text="Exploration: 240/5k races (request batches of 1-12, now and then 2*cores+1..+16 at once, against bursts of 1-8 edits); a writer thread pushes the whole stream without waiting; every request must be answered exactly once within 30 s with the in-process answer of exactly the version that was current when it was written (or a cancellation/error); afterwards the server's text and its last published diagnostics must be those of the client's final text.",
    note="Timing is owned by the OS; line-shifting edits are excluded by construction because of known finding C16-F1 (live document store vs snapshot), its witness is replayed.", ref="DESIGN.md §5 C16"),
  "C17": dict(tech="proptest-generated project trees on disk (registry, path, indirect and diamond dependencies, nested and test modules, free-standing file, opening orders) against the real binary; reference-model oracle (the scope-aware generator's module/package resolution)", engine="lsp",
@@ -91,10 +91,10 @@ def main():
     na=[{"property_id":p,"reason":NOT_YET.get(p,"check not built yet in this round; planned (see DESIGN.md §8 build order)")} for p in ALL if p not in CHECKS]
     m={
       "version":1,
-      "setup_cmd":"cd /verif/harness && CARGO_NET_OFFLINE=true cargo build --release --offline && cd /repo && CARGO_NET_OFFLINE=true CARGO_TARGET_DIR=/verif/target/glasbin cargo build --release --offline -p glas --bin glas && cd /verif/fuzz && (CARGO_NET_OFFLINE=true cargo fuzz build --fuzz-dir /verif/fuzz -s none --target-dir /verif/target/fuzz stream || true)",
+      "setup_cmd":"cd /verif/harness && CARGO_NET_OFFLINE=true cargo build --release --offline && cd /repo && CARGO_NET_OFFLINE=true CARGO_TARGET_DIR=/verif/target/glasbin cargo build --release --offline -p glas --bin glas && CARGO_NET_OFFLINE=true CARGO_TARGET_DIR=/verif/target/glasbin-hooked cargo build --release --offline -p glas --bin glas --features verif && cd /verif/fuzz && (CARGO_NET_OFFLINE=true cargo fuzz build --fuzz-dir /verif/fuzz -s none --target-dir /verif/target/fuzz stream || true)",
       "hooks":{
         "guard":"cargo feature `verif` on crate glas (crates/glas/Cargo.toml [features] verif = [])",
-        "enable":"the harness crate path-depends on /repo/crates/glas with features=[\"verif\"]; ./check rebuilds it from /repo's working tree before every run",
+        "enable":"the harness crate path-depends on /repo/crates/glas with features=[\"verif\"]; ./check rebuilds it from /repo's working tree before every run. For C16, ./check also builds the server binary with --features verif (target/glasbin-hooked); its yield points sleep only when GLAS_VERIF_SCHED=<seed>[:<max ms>] is set, which only the C16 harness does",
         "baseline_off_cmd":"/verif/tools/baseline_off.sh",
         "source_commits":HOOK_COMMITS,
         "add_only":True,
